@@ -315,7 +315,7 @@ fn main() {
     let args = parse_args();
     let t0 = Instant::now();
     install_panic_recorder();
-    let rt = tokio::runtime::Builder::new_multi_thread().worker_threads(8).enable_all().build().unwrap();
+    let rt = tokio::runtime::Builder::new_multi_thread().worker_threads(24).enable_all().build().unwrap();
     let mut rec = Recorder::new("fatal: every ErrorKind through the real is_fatal; frame: one real bmp_read on a scripted reader (random bytes, boundary declared lengths 0..7/2^16/2^24, real BMP messages with mutated length/type/version/flag/payload fields, truncations, concatenations, a fault at a random offset); sess: the real read_from_router on scripts of mostly valid multi-message streams with 0-2 mutated messages, one in six a long (12-64 messages) stream of lifecycle violations and damaged payloads in intact frames, faults inside/between messages, gate termination, trailing garbage; random read chunking and spurious Pending; non-trivial = the length logic ran (>= 5 header bytes delivered without fault) for frame cases, >= 2 loop iterations for sess cases; distinct = distinct case lines");
     let fatal = |k: ErrorKind| hooks::is_fatal(k);
 
@@ -462,8 +462,10 @@ fn main() {
     }
     enum Obs { F(FrameObs), S(SessObs) }
     let mut hangs = 0usize;
-    for chunk in lines.chunks(64) {
-        if hangs >= 8 { rec.bump("stopped-early-after-8-hangs"); break; }
+    // a case that wedges the real code in a synchronous loop keeps one worker thread for good: chunks of 16 and at most
+    // 4 + 16 wedged cases leave workers free for the watchdogs (24 workers)
+    for chunk in lines.chunks(16) {
+        if hangs >= 4 { rec.bump("stopped-early-after-4-hangs"); break; }
         verif_harness::journal(&chunk.iter().map(|(l, _)| base_line(l)).collect::<Vec<_>>());
         let obs: Vec<Obs> = rt.block_on(async {
             let hs: Vec<_> = chunk.iter().map(|(line, seed)| {
